@@ -13,6 +13,7 @@ monitor:        (a) all permutations of a document give the same canonical view 
 
 from __future__ import annotations
 
+import collections
 import copy
 import random
 import itertools
@@ -804,6 +805,227 @@ def judge_meta(out, base, doc, iv, a, objlayer):
         out.disagree("apply.meta", case, iv, mv)
 
 
+# ------------------------------------------------------------------ the deferral machine on every operator
+# (set / sync found+create / delete / extend below promised parents), with instructions that can never be resolved
+
+
+def gen_stuck_doc(rng, base: L.Base):
+    """units with known promise dependencies; returns (doc, pieces) where `pieces` is the order-free meaning:
+    piece = {"deps": [ids in evaluation order], "binds": [ids], "then": [pieces]}"""
+    dp = base.root_id("dp")
+    n = rng.randint(2, 5)
+    pool = [f"q{i}" for i in range(n)]
+    ghosts = ["ghost", "nobody"]
+    doc, pieces = [], []
+    nid = [10000]
+
+    def fresh():
+        nid[0] += 1
+        return nid[0]
+
+    def dep(i):
+        r = rng.random()
+        if r < 0.35:
+            return None
+        if r < 0.55:
+            return rng.choice(ghosts)
+        return rng.choice([q for q in pool if q != pool[i]] or ghosts)
+
+    for i, x in enumerate(pool):
+        k = rng.choice(["E", "E", "SY", "SF"])
+        y = dep(i)
+        a = fresh()
+        if k == "E":
+            sc = [["name", {"s": f"n{a}"}]] + ([["super", {"p": y}]] if y else [])
+            doc.append({"parent": {"u": dp}, "ext": [["classes", [{"nid": a, "pid": x, "scal": sc}]]]})
+            pieces.append({"deps": [y] if y else [], "binds": [x], "then": []})
+        elif k == "SY":  # nothing found: create branch; an unresolved scalar `set` value parks the whole entry
+            so = {"nid": a, "nid2": a + 500, "keys": [["name", {"s": f"n{a}"}]], "pid": x,
+                  "set": [["super", {"v": {"p": y}}]] if y else []}
+            doc.append({"parent": {"u": dp}, "sync": [["classes", [so]]]})
+            pieces.append({"deps": [y] if y else [], "binds": [x], "then": []})
+        else:  # found branch: the same instruction creates the object first (`extend` runs before `sync`)
+            b = fresh()
+            so = {"nid": b, "nid2": b + 500, "keys": [["name", {"s": f"n{a}"}]], "pid": x,
+                  "set": [["super", {"v": {"p": y}}]] if y else []}
+            doc.append({"parent": {"u": dp}, "ext": [["classes", [{"nid": a, "scal": [["name", {"s": f"n{a}"}]]}]]],
+                        "sync": [["classes", [so]]]})
+            pieces.append({"deps": [], "binds": [x], "then": [{"deps": [y] if y else [], "binds": [], "then": []}]})
+    for _ in range(rng.randint(1, 3)):  # instructions below promised parents
+        x = rng.choice(pool + ghosts[:1])
+        y = dep(0) if rng.random() < 0.7 else None
+        a = fresh()
+        if rng.random() < 0.5:
+            st = [["description", {"v": {"s": "d"}}]] + ([["super", {"v": {"p": y}}]] if y else [])
+            doc.append({"parent": {"p": x}, "set": st})
+            pieces.append({"deps": [x], "binds": [], "then": [{"deps": [y] if y else [], "binds": [], "then": []}]})
+        else:
+            z = f"z{a}"
+            sc = [["name", {"s": f"n{a}"}]] + ([["type", {"p": y}]] if y else [])
+            doc.append({"parent": {"p": x}, "set": [["owned_properties", {"l": [{"nid": a, "pid": z, "scal": sc}]}]]})
+            pieces.append({"deps": [x], "binds": [], "then": [{"deps": [y] if y else [], "binds": [z], "then": []}]})
+    fault = None
+    if rng.random() < 0.12:  # `!promise` below `delete:` is refused, never parked
+        doc.append({"parent": {"u": dp}, "del": [["classes", [{"p": rng.choice(pool)}]]]})
+        fault = "valueError"
+    order = list(range(len(doc)))
+    rng.shuffle(order)
+    return [doc[i] for i in order], pieces, fault
+
+
+def denote_stuck(pieces):
+    """least fixpoint: (bound ids, ids under which something stays parked)"""
+    bound: set[str] = set()
+    changed = True
+    while changed:
+        changed = False
+
+        def walk(ps):
+            nonlocal changed
+            for pc in ps:
+                if all(d in bound for d in pc["deps"]):
+                    for b in pc["binds"]:
+                        if b not in bound:
+                            bound.add(b)
+                            changed = True
+                    walk(pc["then"])
+        walk(pieces)
+    keys: set[str] = set()
+
+    def walk2(ps):
+        for pc in ps:
+            miss = [d for d in pc["deps"] if d not in bound]
+            if miss:
+                keys.add(miss[0])
+            else:
+                walk2(pc["then"])
+    walk2(pieces)
+    return bound, keys
+
+
+class _SpyDict(collections.defaultdict):
+    last = None
+
+    def __init__(self, *a, **kw):
+        super().__init__(*a, **kw)
+        _SpyDict.last = self
+
+
+def apply_spy(model, d, base):
+    """decl.apply with the `deferred` dict of the loop observed: returns (status, result, parked [[id, kind]…])"""
+    import types
+
+    _, decl = L.cap()
+    real = decl.collections
+    decl.collections = types.SimpleNamespace(deque=real.deque, OrderedDict=real.OrderedDict, defaultdict=_SpyDict)
+    _SpyDict.last = None
+    try:
+        st, res = L.apply_impl(model, d, base)
+    finally:
+        decl.collections = real
+    parked = []
+    for p, lst in (_SpyDict.last or {}).items():
+        for e in lst:
+            unresolved_parent = isinstance(e.get("parent"), (decl.Promise, decl.FindBy, decl.UUIDReference))
+            kind = "whole" if unresolved_parent else next((k for k in ("extend", "set", "sync") if k in e), "?")
+            parked.append([p.identifier, kind])
+    return st, res, sorted(parked)
+
+
+def run_stuck(ctx, out, base: L.Base, doc, pieces, fault, perms, req, pending):
+    """every operator through the deferral machine, in every order: (monitor) success / failure and the ids named by
+    UnfulfilledPromisesError are those of the order-free meaning, in every order; (tie) error, ids and the parked
+    entries (id, shape) at the end of the loop agree with the Lean machine's final state"""
+    bound, keys = denote_stuck(pieces)
+    dockey = common.sha(doc)
+    for perm in perms:
+        d = [doc[i] for i in perm]
+        m = L.load_model(base.key)
+        st, res, parked = apply_spy(m, copy.deepcopy(d), base)
+        case = {"model": base.key, "doc": doc, "order": list(perm), "flavour": "stuck", "pieces": pieces, "fault": fault}
+        if st == "ok":
+            iv = {"view": L.render_impl(m, base, res)}
+            got_keys = None
+        else:
+            iv = dict(res)
+            got_keys = set(res.get("promises", [])) if res["error"] == "unfulfilled" else None
+            if res["error"] == "unfulfilled":
+                iv["parked"] = parked
+        out.case((base.key, dockey, tuple(perm)),
+                 {"model": base.key, "flavour": "stuck", "order": list(perm), "doc": d,
+                  "impl": iv if st != "ok" else {"promises": sorted(res)}} if len(out.samples) < 6 and keys else None,
+                 bool(keys) or fault is not None)
+        out.hit("stuck.impl:" + (st if st == "ok" else res["error"]))
+        for _, k in parked:
+            out.hit("stuck.parked:" + k)
+        out.traces_validated += 1
+        req.append({"op": "apply", "mm": "gen", "graph": base.graph, "doc": d})
+        pending.append((base, doc, list(perm), "stuck", iv))
+        if fault is not None:
+            if st == "ok" or res["error"] != fault:
+                out.find("apply|promise-below-delete-not-refused|delete",
+                         f"{base.key}: `delete: {{classes: [!promise …]}}` gives {st if st == 'ok' else res} in order {list(perm)}", case)
+            continue
+        if not keys:
+            if st != "ok":
+                out.find(f"apply|raises-on-valid-document|{res['error']}-ops",
+                         f"{base.key}: set/sync document in which every promise can be resolved raises {res} in order {list(perm)}", case)
+            elif set(res) != bound:
+                out.find("apply|promise-misdirected|mapping-ops",
+                         f"{base.key}: returned ids {sorted(res)} != declared and reachable ids {sorted(bound)}", case)
+        else:
+            if st == "ok":
+                out.find("apply|silently-accepts|unfulfilled-ops",
+                         f"{base.key}: set/sync document with entries that can never be resolved (waiting for {sorted(keys)}) "
+                         f"is applied without error in order {list(perm)}", case)
+            elif res["error"] != "unfulfilled":
+                out.find(f"apply|raises-on-valid-document|{res['error']}-ops",
+                         f"{base.key}: expected UnfulfilledPromisesError{sorted(keys)}, got {res} in order {list(perm)}", case)
+            elif got_keys != keys:
+                out.find("apply|unfulfilled-names-wrong-ids|ops",
+                         f"{base.key}: UnfulfilledPromisesError names {sorted(got_keys)}, the entries that cannot be resolved "
+                         f"wait for {sorted(keys)} (order {list(perm)})", case)
+
+
+DROP_WITNESS = [  # Props/C12.lean `dropWitness`: `set: {classes: [...]}` overridden by `extend: {classes: []}` in the create branch
+    {"parent": {"u": "dp"}, "sync": [["packages", [{"nid": 10020, "nid2": 10021, "keys": [["name", {"s": "n10020"}]],
+                                                    "set": [["classes", {"l": [{"nid": 10022, "pid": "K",
+                                                                                "scal": [["name", {"s": "n10022"}]]}]}]],
+                                                    "ext": [["classes", []]]}]]]},
+    {"parent": {"u": "dp"}, "ext": [["classes", [{"nid": 10023, "pid": "K", "scal": [["name", {"s": "n10023"}]]}]]]},
+]
+DROP_WITNESS2 = [  # the same merge swallows a reference to a promise nobody declares
+    {"parent": {"u": "dp"}, "sync": [["packages", [{"nid": 10020, "nid2": 10021, "keys": [["name", {"s": "n10020"}]],
+                                                    "set": [["classes", {"l": [{"nid": 10022, "scal": [
+                                                        ["name", {"s": "n10022"}], ["super", {"p": "ghost"}]]}]}]],
+                                                    "ext": [["classes", []]]}]]]},
+]
+
+
+def run_drop_witness(ctx, out, base, req, pending):
+    """replay of `duplicate_all_full_fails` on the implementation (and the model, through the ordinary tie)"""
+    for doc, sig, what in ((subst_roots(DROP_WITNESS, base), "apply|silently-accepts|dup-in-overridden-set-list",
+                            "a promise id declared twice is accepted: the create branch of sync builds the object from "
+                            "`find | set | extend`, and the `set` list overridden by an `extend` list of the same name "
+                            "disappears with the declaration inside it"),
+                           (subst_roots(DROP_WITNESS2, base), "apply|silently-accepts|unfulfilled-in-overridden-set-list",
+                            "a reference to a promise nobody declares is dropped silently: it sits in a `set` list that the "
+                            "create branch of sync overrides with the `extend` list of the same name")):
+        for perm in itertools.permutations(range(len(doc))):
+            d = [doc[i] for i in perm]
+            m = L.load_model(base.key)
+            st, res = L.apply_impl(m, copy.deepcopy(d), base)
+            iv = {"view": L.render_impl(m, base, res)} if st == "ok" else res
+            out.case((base.key, common.sha(doc), tuple(perm)), None, True)
+            out.hit("dropwitness.impl:" + (st if st == "ok" else res["error"]))
+            req.append({"op": "apply", "mm": "gen", "graph": base.graph, "doc": d})
+            pending.append((base, doc, list(perm), "dropwitness", iv))
+            if st == "ok":
+                out.find(sig, f"{base.key}: {what} (order {list(perm)})",
+                         {"model": base.key, "doc": doc, "order": list(perm), "flavour": "dropwitness", "sig": sig})
+
+
+
 WITNESS = [  # the document of Props/C12.lean `witness` (dp is substituted)
     {"parent": {"u": "dp"}, "ext": [["classes", [{"nid": 10000, "scal": [["name", {"s": "n1000"}], ["super", {"p": "K"}]]},
                                                   {"nid": 10001, "scal": [["name", {"s": "n1001"}]]}]]]},
@@ -911,6 +1133,22 @@ def run(ctx: Ctx) -> Outcome:
             doc = doc[:5] if flavour == "plain" else doc
         do(base, doc, flavour)
     run_meta(ctx, out, bases, req, pending)
+    # every operator through the deferral machine, with instructions that can never be resolved, in every order
+    nstuck = pick(ctx, 40, 250)
+    stuck_dist = {"stuck": 0, "resolvable": 0, "delete-promise": 0}
+    for n in range(nstuck):
+        base = bases["empty52"] if rng.random() < 0.8 else bases[rng.choice(["melody52", "write"])]
+        doc, pieces, fault = gen_stuck_doc(rng, base)
+        perms, ex = perms_for(ctx, len(doc), 3)
+        if not ex:
+            perms = perms[:pick(ctx, 6, 24)]
+        exhaustive_docs += ex
+        flav["stuck"] = flav.get("stuck", 0) + 1
+        stuck_dist["delete-promise" if fault else "stuck" if denote_stuck(pieces)[1] else "resolvable"] += 1
+        run_stuck(ctx, out, base, doc, pieces, fault, perms, req, pending)
+    out.extra["stuck_documents"] = stuck_dist
+    for base in bases.values():
+        run_drop_witness(ctx, out, base, req, pending)
 
     # ---- correspondence with the Lean machine
     if os.environ.get("VERIF_NO_MODEL") != "1":
@@ -932,6 +1170,10 @@ def run(ctx: Ctx) -> Outcome:
             if "error" in a:
                 mv = L.norm_model_err(a)
                 out.hit("model:" + a["error"])
+                if flavour == "stuck" and a["error"] == "unfulfilled":  # the loop's final state: what is parked, under which id
+                    mv["parked"] = sorted(a.get("parked", []))
+                    for _, k in a.get("parked", []):
+                        out.hit("stuck.model.parked:" + k)
             else:
                 mv = {"view": L.render_model(a, base)}
                 out.hit("model:ok")
@@ -972,6 +1214,13 @@ def replay(ctx: Ctx, case: dict):
             return f"orders {case['order']} and {case.get('order2') or case.get('order_ok')} still differ: {diff or (a[1], b[1])}"
         return None
     out = Outcome()
+    if case.get("flavour") == "stuck":
+        run_stuck(ctx, out, base, doc, case["pieces"], case.get("fault"), [case["order"]], [], [])
+        return out.findings[0].what if out.findings else None
+    if case.get("flavour") == "dropwitness":
+        m = L.load_model(base.key)
+        st, res = L.apply_impl(m, copy.deepcopy([doc[i] for i in case["order"]]), base)
+        return f"still applied without error (order {case['order']}): {case.get('sig')}" if st == "ok" else None
     run_doc(ctx, out, base, doc, case.get("flavour", "plain"), [case["order"]], [], [])
     if out.findings:
         return out.findings[0].what
